@@ -224,9 +224,11 @@ def job_mean(j):
     if not (j.get("default_passes") and passes == 1):
         kw["passes"] = passes
     o = comp(F.mean(r, **kw).data, j)
-    D = den_of(j) * (2520 ** max(passes, 0)) if passes <= 2 else 10 ** 9
+    # denominators after p passes divide d (p=0), 9d.. (p=1: d*n, n<=9), d*lcm(1..9)*9 (p=2)
+    D = den_of(j) * (1, 9, 22680)[passes] if passes <= 2 else 10 ** 9
     tol = 64 * 2.3e-16 * vmax_of(j)
     return {"kind": "mean", "X": [[qval(v) for v in row] for row in j["X"]], "passes": passes,
+            "only_excl": int(j.get("only_excl", 0)),
             "excl": [qval("nan" if (isinstance(e, str)) else e) for e in j["excl"]],
             "out": enc_matrix(o, D, tol), "raw": [[None if np.isnan(v) else float(v) for v in row] for row in o]}
 
